@@ -8,6 +8,7 @@ from ..core import FUNC, call_attr, calls_in, const, dotted, is_const, kwarg, no
 from .c09 import waiter_rule, _stored_in_cancelled_table
 
 EXPLANATION = [
+    'C16.listeners: the long-lived wiring of the L2CAP channel manager and of the device to their host uses on(), never once(): teardown handlers stay subscribed for every connection.',
     'C16.pending-slots: a manager-wide pending-request slot that a coroutine of ChannelManager fills with a future is set back to None on every exit of that coroutine after the store, the cancellation of its await (disconnection) included.',
     'C16.late-binding: no closure that is created inside a loop and kept (a sink, an event listener, a callback) reads the loop\'s variables freely; values are bound per iteration (default argument or functools.partial), so each bearer\'s callback serves its own bearer.',
     'C16.shared-state: no class of the anchored modules keeps per-instance state in an object shared by all instances (an empty mutable container or synchronisation object as class-level default that is read through self and not rebound in __init__, or as a dataclass field default); process-wide registries are listed by name.',
@@ -503,12 +504,30 @@ def shared_state_rule(ctx):
     shared_state(ctx, 'C16.shared-state', ['bumble.host', 'bumble.device', 'bumble.gatt_server', 'bumble.gatt_client', 'bumble.l2cap', 'bumble.smp', 'bumble.controller'])
 
 
+def iter_mutation_rule(ctx):
+    from ..iter_mutation import iter_mutation
+    iter_mutation(ctx, 'C16.iter-mutation', ['bumble.l2cap', 'bumble.device', 'bumble.host', 'bumble.gatt_server', 'bumble.gatt_client', 'bumble.smp', 'bumble.controller'])
+
+
 def late_binding_rule(ctx):
     from ..late_binding import late_binding
     late_binding(ctx, 'C16.late-binding', ['bumble.device', 'bumble.host', 'bumble.l2cap', 'bumble.gatt_client', 'bumble.gatt_server', 'bumble.smp'])
 
 
+def listeners_rule(ctx):
+    from .. import generic_rules as g
+    g.persistent_listeners(ctx, 'C16.listeners', ['bumble.l2cap.ChannelManager.host', 'bumble.device.Device.host'])
+
+
+def exception_payloads_rule(ctx):
+    from ..generic_rules import exception_payloads
+    exception_payloads(ctx, 'C16.exception-payloads', ['bumble.device', 'bumble.host', 'bumble.l2cap', 'bumble.gatt_client', 'bumble.smp', 'bumble.rfcomm', 'bumble.avdtp', 'bumble.sdp'])
+
+
 RULES = [
+    ('C16.exception-payloads', exception_payloads_rule),
+    ('C16.iter-mutation', iter_mutation_rule),
+    ('C16.listeners', listeners_rule),
     ('C16.late-binding', late_binding_rule),
     ('C16.shared-state', shared_state_rule),
     ('C16.queue-waiters', queue_waiters),
